@@ -1,5 +1,6 @@
 import StraxModel.Model.Selection
 import StraxModel.Lemmas.ChunkAlgSplit
+import StraxModel.Lemmas.SuperrunBad
 /-
   Helper lemmas for property C10 (theory T10 Selection).  Core Lean only.
 
@@ -73,10 +74,15 @@ def splitSpec (c : Chunk) (t : Int) (early : Bool) : Except Err (Chunk × Chunk)
       | .error e => .error e
       | .ok c2 => .ok (c1, c2)
 
-theorem split_eq_spec (c : Chunk) (t : Int) (early : Bool) : c.split t early = splitSpec c t early := by
-  unfold Chunk.split splitSpec splitData singleRuns
+theorem splitCore_eq_spec (c : Chunk) (t : Int) (early : Bool) : c.splitCore t early = splitSpec c t early := by
+  unfold Chunk.splitCore splitSpec splitData singleRuns
   simp only [bind, Except.bind, pure, Except.pure]
   split <;> split <;> (try split) <;> simp_all <;> grind
+
+/-- for chunks without sub-runs `is_superrun` cannot raise, so `split` is its core -/
+theorem split_eq_spec {c : Chunk} (hsub : c.subruns = none) (t : Int) (early : Bool) :
+    c.split t early = splitSpec c t early := by
+  rw [Chunk.split_of_not_bad (Chunk.not_bad_of_subruns_none hsub), splitCore_eq_spec]
 
 def Plain (c : Chunk) : Prop :=
   c.subruns = none ∧ ∃ rid a b, c.runId = some rid ∧ c.superrun = [⟨rid, a, b⟩]
@@ -208,7 +214,7 @@ theorem split_plain {c : Chunk} {t : Int} {early : Bool} {l r : List Row} {t' : 
   obtain ⟨c2, hc2, h2r, h2s, h2e, -, -, -, hp2⟩ := mkChunk_plain (dt := c.dataType) (k := c.kind) (rid := rid)
     (tg := c.target) (show 0 ≤ max c.start t' by omega) (show max c.start t' ≤ max t' c.stop by omega) hrows2 hsing.2
   refine ⟨c1, c2, ?_, h1r, h2r, h1s, h1e, h2s, h2e, hp1, hp2⟩
-  rw [split_eq_spec]
+  rw [split_eq_spec hsub]
   unfold splitSpec
   rw [h]
   simp only [hprom, if_true, hsub, hsup]
@@ -218,9 +224,9 @@ theorem split_plain {c : Chunk} {t : Int} {early : Bool} {l r : List Row} {t' : 
     Option.map_some]
   rw [hc1, hc2]
 
-theorem split_error_of_data {c : Chunk} {t : Int} {early : Bool} {e : Err}
+theorem split_error_of_data {c : Chunk} {t : Int} {early : Bool} {e : Err} (hsub : c.subruns = none)
     (h : splitData c t early = .error e) : c.split t early = .error e := by
-  rw [split_eq_spec]
+  rw [split_eq_spec hsub]
   unfold splitSpec
   rw [h]
 
@@ -291,7 +297,7 @@ theorem trimRight_ok {c : Chunk} (r : Range) (hc : ChunkOK c) (hp : Plain c) :
       intro x hx
       have := hr x hx
       omega
-    · rw [split_error_of_data herr]
+    · rw [split_error_of_data hp.1 herr]
       exact ⟨c, rfl, [], by simp, by simp⟩
   · exact ⟨c, rfl, [], by simp, by simp⟩
 
@@ -721,7 +727,7 @@ theorem runStart_of_span {s : List Chunk} {S E : Int} (h : span s = some (S, E))
 
 theorem toAbsolute_congr {s1 s2 : List Chunk} {S E : Int} (a : TimeArgs) (h1 : span s1 = some (S, E))
     (h2 : span s2 = some (S, E)) : toAbsolute s1 a = toAbsolute s2 a := by
-  unfold toAbsolute
+  unfold toAbsolute estimateRunStart
   rw [runStart_of_span h1, runStart_of_span h2]
 
 theorem ne_nil_of_span {s : List Chunk} {S E : Int} (h : span s = some (S, E)) : s ≠ [] := by
